@@ -4,7 +4,8 @@ Decides: (R11.1) subscription handler table on every path of the PUB and XPUB ha
 list is mutated only for a single-frame, non-empty Message whose first byte is 1 (exactly one push of data[1..])
 or 0 (position(== data[1..]) over the same list, exactly one remove at that index, nothing when absent); no
 bulk mutation (retain/clear/drain/...); any other first byte mutates nothing; (R11.2) the PUB and XPUB handlers,
-and the PUB and XPUB send bodies, agree path-for-path after normalisation (sibling cross-check); (R11.3) a
+and the PUB and XPUB send bodies, have the same set of effect sequences - list mutations, sends, disconnects and
+exit kind per path, decisions and read-only calls left out (sibling cross-check); (R11.3) a
 message is handed to a subscriber only under the normal form of the prefix test: len(sub) <= len(first frame)
 and sub == first[0..len(sub)] (or first.starts_with(sub)); (R11.4) at most one try_send per subscriber per
 publish (the scan of that subscriber's list ends at the first match); (R11.5) XPUB recv gives a clone of every
@@ -12,7 +13,8 @@ message to the handler and returns the original; PUB feeds its handler from one 
 Does NOT decide multiset semantics over arbitrary histories."""
 import re
 from ..sym import show, walk_expr
-from ..common import short, trait_impls, coroutine_of
+from ..facts import callee_name
+from ..common import short, trait_impls, coroutine_of, emptiness
 from .. import pathq
 from .c07 import socket_coroutine, is_param_msg
 
@@ -21,7 +23,7 @@ NOT_DECIDED = "agreement with a reference multiset-prefix model over arbitrary s
 ASSUMPTIONS = ["Vec::push/remove/position semantics", "scc entry guards give exclusive access to one subscriber"]
 RULES = {
     "R11.1": "handler table: single-frame, non-empty, byte 1 -> one push(data[1..]); byte 0 -> one remove(position(==data[1..])); else nothing",
-    "R11.2": "PUB handler = XPUB handler, PUB send = XPUB send (normalised path signatures)",
+    "R11.2": "PUB handler and XPUB handler, PUB send and XPUB send have the same set of effect sequences (list mutations, sends, disconnects, exit kind)",
     "R11.3": "delivery only under len(sub) <= len(first) && sub == first[..len(sub)] (or starts_with)",
     "R11.4": "at most one try_send per subscriber per publish",
     "R11.5": "XPUB recv: handler gets a clone, caller the original; PUB: one spawned reader per peer feeding the handler",
@@ -39,7 +41,7 @@ def handlers(f):
         if not sig:
             continue
         if any("codec::Message" in t for t in sig["inputs"]) and any("PeerIdentity" in t for t in sig["inputs"]):
-            muts = [fn for bb, t, fn in b.calls() if fn and fn["name"] in LIST_MUT and "Vec" in fn["path"]]
+            muts = [fn for k in pathq.scope(f, b) for bb, t, fn in k.calls() if fn and fn["name"] in LIST_MUT and "Vec" in fn["path"]]
             if muts:
                 out.append(b)
     return out
@@ -47,7 +49,7 @@ def handlers(f):
 
 def list_mutations(p):
     return [(i, ev) for i, ev in enumerate(p.events) if ev.kind == "call" and ev.extra != "inlined" and short(ev.name) in LIST_MUT and "Vec" in ev.name
-            and any(isinstance(x, tuple) and x and x[0] == "field" and "subscription" in str(x[2]) for x in walk_expr(ev.args[0]))]
+            and any(isinstance(x, tuple) and x and x[0] == "field" and "Vec<std::vec::Vec<u8>>" in str(x[3]) for x in walk_expr(ev.args[0]))]
 
 
 def first_byte_decision(p, upto):
@@ -75,7 +77,7 @@ def check_handler(f, rep, b):
         single = any(e[0] == "binop" and e[1] in ("Ne", "Eq") and e[3] == ("int", 1) and e[2][0] in ("pure", "call") and short(e[2][1]) == "len" and "ZmqMessage" in e[2][1] and
                      ((e[1] == "Ne" and pathq.truth(c) is False) or (e[1] == "Eq" and pathq.truth(c) is True)) for (e, c, _, _) in conds)
         msg_arm = any(e[0] == "discr" and e[1] == ("arg", 3) and c == ("eq", 2) for (e, c, _, _) in conds)
-        nonempty = any(e[0] in ("pure", "call") and short(e[1]) == "is_empty" and pathq.truth(c) is False for (e, c, _, _) in conds)
+        nonempty = any(emptiness(e, c) is not None and emptiness(e, c)[1] is False for (e, c, _, _) in conds)
         fb = first_byte_decision(p, ev.ncond)
         if kind not in ("push", "remove"):
             rep.bad("R11.1", "R11.1|%s|bulk-mutation" % b.path, "the subscription list is changed with %s: subscriptions are counted, each message adds or cancels exactly one" % kind, b.loc(ev.bb))
@@ -105,8 +107,13 @@ def check_handler(f, rep, b):
                 same_list = it is not None and canon_text(view_key(it[2][0])[0]) == canon_text(view_key(ev.args[0])[0])
             some = pos is not None and any(e[0] == "discr" and e[1] == pos and c == ("eq", 1) for (e, c, _, _) in conds)
             # the closure compares with the topic data[1..]
-            kids = [k for k in f.children(b) if k.kind == "Closure"]
-            cmp_eq = any(any(fn and fn["name"] in ("eq", "ne") for bb, t, fn in k.calls()) for k in kids)
+            cmp_eq = False
+            clo = pos[2][1] if pos is not None and len(pos[2]) == 2 else None
+            if clo is not None and clo[0] == "agg" and clo[1] == "closure" and f.body(clo[2]) is not None:
+                rets = [cp.ret for cp in pathq.paths(f, f.body(clo[2])) if cp.end == "return"]
+                # |s| s == &topic : equality of the item (argument 2) with a captured value (through argument 1)
+                cmp_eq = bool(rets) and all(r[0] in ("call", "pure") and short(r[1]) == "eq" and any(y == ("arg", 2) for y in walk_expr(r)) and
+                                            any(y == ("arg", 1) for y in walk_expr(r)) for r in rets)
             rep.check(pos is not None and same_list and some and cmp_eq, "R11.1", "R11.1|%s|remove-one-equal" % b.path,
                       "unsubscribe removes exactly the entry at position(== topic) of the same list, only when found (position %s, same list %s, Some arm %s, equality closure %s)" % (pos is not None, same_list, some, cmp_eq), b.loc(ev.bb))
     rep.floor("R11.1", "%s: subscribe paths" % b.path, nm["push"], 1)
@@ -123,24 +130,24 @@ def norm_sig(txt):
     return txt
 
 
+EFFECTS = LIST_MUT | {"try_send", "send", "start_send", "peer_disconnected", "remove_sync", "remove_async", "remove_entry",
+                      "insert_sync", "insert_async", "upsert_sync", "upsert_async", "message_received", "spawn"}
+
+
 def path_signature(p):
-    LOG = ("log", "__private_api", "enabled", "max_level", "new_const", "new_v1", "Arguments", "loc", "fmt")
-    cs = []
-    for (e, c, _, _) in p.conds:
-        s = norm_sig(show(e))
-        if any(l in s for l in ("log::", "max_level", "STATIC_MAX_LEVEL")):
-            continue
-        cs.append((s, c))
+    """What a path *does*: the sequence of state-changing / sending calls and how it ends. Decisions and read-only calls are
+    left out on purpose: two siblings may test the same thing through different but equivalent expressions."""
     ev = []
     for e in p.events:
-        if e.kind == "call" and e.extra != "inlined":
+        if e.kind == "call" and e.extra != "inlined" and not pathq.is_poll(e):
             n = short(e.name)
-            if "log::" in e.name or n in ("enabled", "max_level", "new_const", "new_v1", "new_debug", "loc", "log", "new"):
-                continue
-            if "fmt::" in e.name or "Arguments" in e.name:
-                continue
-            ev.append(n)
-    return (tuple(cs), tuple(ev), p.end)
+            if n in LIST_MUT:
+                # only mutations of a subscription list (a Vec<Vec<u8>> field), not of a local frame vector
+                if e.args and any(isinstance(x, tuple) and x and x[0] == "field" and "Vec<std::vec::Vec<u8>>" in str(x[3]) for x in walk_expr(e.args[0])):
+                    ev.append(n)
+            elif n in EFFECTS:
+                ev.append(n)
+    return (tuple(ev), pathq.ret_kind(p) if p.end == "return" else p.end)
 
 
 def check_siblings(f, rep, a, b, what, **kw):
@@ -152,9 +159,75 @@ def check_siblings(f, rep, a, b, what, **kw):
     detail = None
     if not ok:
         ex = sorted(only_a or only_b, key=lambda s: len(str(s)))[0]
-        detail = "first differing path (%s only): decisions=%s calls=%s" % ("first" if only_a else "second", [(c[0][-60:], c[1]) for c in ex[0]][-4:], list(ex[1])[-12:])
-    rep.check(ok, "R11.2", "R11.2|%s" % what, "%s: %s and %s agree on all %d/%d normalised paths (only in first: %d, only in second: %d)" % (
+        detail = "an effect sequence of the %s only: %s -> %s" % ("first" if only_a else "second", list(ex[0]), ex[1])
+    rep.check(ok, "R11.2", "R11.2|%s" % what, "%s: %s and %s have the same set of effect sequences (%d/%d; only in first: %d, only in second: %d)" % (
         what, a.path.split("::")[-3] if "::" in a.path else a.path, b.path.split("::")[-3] if "::" in b.path else b.path, len(sa), len(sb), len(only_a), len(only_b)), a.loc(), detail)
+
+
+def mentions(e, pred):
+    return any(pred(y) for y in walk_expr(e))
+
+
+def prefix_test(conds, is_sub):
+    """(le, eq, sw): do these decisions contain the normal form of `sub is a byte-prefix of the first frame`?
+    le: len(sub) <= len(first);  eq: sub == first[0..len(sub)] / first[..len(sub)];  sw: first.starts_with(sub).
+    `is_sub` recognises the expression the subscription under test comes from."""
+    le_ok = eq_ok = sw_ok = False
+    first_src = lambda y: isinstance(y, tuple) and y and y[0] in ("call", "pure") and short(y[1]) == "get" and "ZmqMessage" in y[1]
+    for (e, c, _, _) in conds:
+        t = pathq.truth(c)
+        if e[0] == "binop" and e[1] in ("Le", "Ge", "Gt", "Lt"):
+            a, b2 = e[2], e[3]
+            def is_sub_len(x):
+                return x[0] in ("pure", "call") and short(x[1]) == "len" and mentions(x, is_sub)
+            def is_first_len(x):
+                return x[0] in ("pure", "call") and short(x[1]) == "len" and mentions(x, first_src) and not mentions(x, is_sub)
+            if is_sub_len(a) and is_first_len(b2):
+                le_ok = le_ok or (e[1] == "Le" and t is True) or (e[1] == "Gt" and t is False)
+            if is_first_len(a) and is_sub_len(b2):
+                le_ok = le_ok or (e[1] == "Ge" and t is True) or (e[1] == "Lt" and t is False)
+        if e[0] in ("pure", "call") and short(e[1]) in ("eq", "ne") and len(e[2]) == 2:
+            want = t is True if short(e[1]) == "eq" else t is False
+            sides = e[2]
+            sub_side = [s for s in sides if mentions(s, is_sub) and pathq.mentions_call(s, lambda y: short(y[1]) == "index") is None]
+            msg_side = [s for s in sides if pathq.mentions_call(s, lambda y: short(y[1]) == "index") is not None]
+            if want and sub_side and msg_side:
+                ix = pathq.mentions_call(msg_side[0], lambda y: short(y[1]) == "index")
+                r = ix[2][1]
+                sliced_first = mentions(ix[2][0], first_src)
+                def sub_len(x):
+                    return x[0] in ("pure", "call") and short(x[1]) == "len" and mentions(x, is_sub)
+                rng = r[0] == "agg" and (((r[2] or "").endswith("Range") and r[4][0] == ("int", 0) and sub_len(r[4][1])) or
+                                          ((r[2] or "").endswith("RangeTo") and sub_len(r[4][0])))
+                eq_ok = eq_ok or (sliced_first and rng)
+        if e[0] in ("pure", "call") and short(e[1]) == "starts_with" and t is True and len(e[2]) == 2:
+            sw_ok = sw_ok or (mentions(e[2][0], first_src) and not mentions(e[2][0], is_sub) and mentions(e[2][1], is_sub))
+    return le_ok, eq_ok, sw_ok
+
+
+def any_closure_test(f, e):
+    """e = subs.iter().any(closure): the closure answers true only under the prefix test of its argument"""
+    it = e[2][0]
+    while it[0] == "ref":
+        it = it[1]
+    clo = e[2][1]
+    plain_iter = it[0] in ("call", "pure") and short(it[1]) == "iter" and any(
+        isinstance(x, tuple) and x and x[0] == "field" and "Vec<std::vec::Vec<u8>>" in str(x[3]) for x in walk_expr(it))
+    if not plain_iter or not (clo[0] == "agg" and clo[1] == "closure") or f.body(clo[2]) is None:
+        return False, False, False
+    res = []
+    for cp in pathq.paths(f, f.body(clo[2])):
+        if cp.end != "return":
+            continue
+        if cp.ret == ("int", 0):
+            continue
+        conds = list(cp.conds)
+        if cp.ret != ("int", 1):
+            conds.append((cp.ret, ("eq", 1), None, None))
+        res.append(prefix_test(conds, lambda y: y == ("arg", 2)))
+    if not res:
+        return False, False, False
+    return all(r[0] for r in res), all(r[1] for r in res), all(r[2] for r in res)
 
 
 def check_send(f, rep, co, label):
@@ -169,41 +242,12 @@ def check_send(f, rep, co, label):
             starts = [k for k, e2 in its if k < i]
             base = p.events[starts[-1]].ncond if starts else 0
             scan = p.conds[base:ev.ncond]
-            le_ok = False
-            eq_ok = False
-            sw_ok = False
-            for (e, c, _, _) in scan:
-                t = pathq.truth(c)
-                if e[0] == "binop" and e[1] in ("Le", "Ge", "Gt", "Lt"):
-                    a, b2 = e[2], e[3]
-                    def is_sub_len(x):
-                        return x[0] in ("pure", "call") and short(x[1]) == "len" and pathq.mentions_call(x, lambda y: short(y[1]) == "next" and "slice::Iter" in y[1]) is not None
-                    def is_first_len(x):
-                        return x[0] in ("pure", "call") and short(x[1]) == "len" and pathq.mentions_call(x, lambda y: short(y[1]) == "get" and "ZmqMessage" in y[1]) is not None and \
-                            pathq.mentions_call(x, lambda y: short(y[1]) == "next" and "slice::Iter" in y[1]) is None
-                    if is_sub_len(a) and is_first_len(b2):
-                        le_ok = le_ok or (e[1] == "Le" and t is True) or (e[1] == "Gt" and t is False)
-                    if is_first_len(a) and is_sub_len(b2):
-                        le_ok = le_ok or (e[1] == "Ge" and t is True) or (e[1] == "Lt" and t is False)
-                if e[0] in ("pure", "call") and short(e[1]) in ("eq", "ne") and len(e[2]) == 2:
-                    want = t is True if short(e[1]) == "eq" else t is False
-                    sides = e[2]
-                    sub_side = [s for s in sides if pathq.mentions_call(s, lambda y: short(y[1]) == "next" and "slice::Iter" in y[1]) is not None and
-                                pathq.mentions_call(s, lambda y: short(y[1]) == "index") is None]
-                    msg_side = [s for s in sides if pathq.mentions_call(s, lambda y: short(y[1]) == "index") is not None]
-                    if want and sub_side and msg_side:
-                        ix = pathq.mentions_call(msg_side[0], lambda y: short(y[1]) == "index")
-                        r = ix[2][1]
-                        sliced_first = pathq.mentions_call(ix[2][0], lambda y: short(y[1]) == "get" and "ZmqMessage" in y[1]) is not None
-                        rng = r[0] == "agg" and (((r[2] or "").endswith("Range") and r[4][0] == ("int", 0) and r[4][1][0] in ("pure", "call") and short(r[4][1][1]) == "len" and
-                                                   pathq.mentions_call(r[4][1], lambda y: short(y[1]) == "next" and "slice::Iter" in y[1]) is not None) or
-                                                  ((r[2] or "").endswith("RangeTo") and r[4][0][0] in ("pure", "call") and short(r[4][0][1]) == "len" and
-                                                   pathq.mentions_call(r[4][0], lambda y: short(y[1]) == "next" and "slice::Iter" in y[1]) is not None))
-                        eq_ok = eq_ok or (sliced_first and rng)
-                if e[0] in ("pure", "call") and short(e[1]) == "starts_with" and t is True and len(e[2]) == 2:
-                    recv_first = pathq.mentions_call(e[2][0], lambda y: short(y[1]) == "get" and "ZmqMessage" in y[1]) is not None
-                    arg_sub = pathq.mentions_call(e[2][1], lambda y: short(y[1]) == "next" and "slice::Iter" in y[1]) is not None
-                    sw_ok = sw_ok or (recv_first and arg_sub)
+            le_ok, eq_ok, sw_ok = prefix_test(scan, lambda y: isinstance(y, tuple) and y and y[0] in ("call", "pure") and short(y[1]) == "next" and "slice::Iter" in y[1])
+            if not ((le_ok and eq_ok) or sw_ok):
+                # the scan written as subs.iter().any(|sub| test(sub)): delivery under any(..) == true, the test read in the closure
+                for (e, c, _, _) in scan:
+                    if pathq.truth(c) is True and e[0] in ("call", "pure") and short(e[1]) == "any" and len(e[2]) == 2:
+                        le_ok, eq_ok, sw_ok = any_closure_test(f, e)
             rep.check((le_ok and eq_ok) or sw_ok, "R11.3", "R11.3|%s|prefix-test" % label,
                       "%s delivers only when a subscription is a byte-prefix of the first frame: len(sub)<=len(first) %s, sub == first[0..len(sub)] %s, or starts_with %s" % (label, le_ok, eq_ok, sw_ok), co.loc(ev.bb))
             item = ev.args[1]
@@ -234,7 +278,8 @@ def run(ctx, f, rep):
         check_send(f, rep, pub, "PUB send")
         check_send(f, rep, xpub, "XPUB send")
         check_siblings(f, rep, pub, xpub, "publish-loops", max_visits=1, cut_at_yield=True)
-    # R11.5
+    # R11.5 (the subscription handlers are the functions found by signature above, whatever they are called)
+    hpaths = {b.path for b in hs}
     co = socket_coroutine(f, "SocketRecv", "recv", "XPubSocket")
     if co is None:
         rep.bad("R11.5", "R11.5|xpub-recv-anchor", "XPubSocket::recv not found (anchor-missing)")
@@ -244,7 +289,7 @@ def run(ctx, f, rep):
             if p.end != "return" or pathq.ret_kind(p) != "Ok":
                 continue
             n += 1
-            calls = [ev for i, ev in pathq.calls(p, "message_received")]
+            calls = [ev for i, ev in pathq.calls(p) if ev.name in hpaths]
             ok = False
             if len(calls) == 1:
                 a = calls[0].args[2] if len(calls[0].args) > 2 else None
@@ -272,5 +317,5 @@ def run(ctx, f, rep):
                 rep.check(len(sp) == 1, "R11.5", "R11.5|pub-one-reader-per-peer", "PUB spawns exactly one subscription reader per registered peer (spawns=%d)" % len(sp), co.loc())
         rep.floor("R11.5", "PUB registering paths", spawned, 1)
         reader = [k for k in f.children(co) if k.j.get("coroutine_kind")]
-        feeds = any(any(fn and fn["name"] == "message_received" for bb, t, fn in k.calls()) for k in f.children(co))
+        feeds = any(any(fn and callee_name(fn) in hpaths for bb, t, fn in k2.calls()) for k in f.children(co) for k2 in pathq.scope(f, k))
         rep.check(feeds, "R11.5", "R11.5|pub-reader-feeds-handler", "the PUB reader task hands received items to the subscription handler", co.loc())
